@@ -677,7 +677,11 @@ class MementoFunctionHashRule(HashRule):
         # different mechanism (the global counter), but it is possible that a symbol
         # pointing to a memento function is now pointing to something else, or even undefined
         # so detect if that happened, else return `False`.
-        new_fn = self.resolver()
+        try:
+            new_fn = self.resolver()
+        except (AttributeError, KeyError):
+            # The symbol no longer resolves at all (it was removed)
+            return True
         # ... or to a different memento function
         return (
             not isinstance(new_fn, MementoFunctionType)
@@ -763,7 +767,11 @@ class GlobalVariableHashRule(HashRule):
         if self.last_value is None:
             return False
         # Re-resolve the symbol so we get changes to by-value semantics
-        new_var = self.resolver()
+        try:
+            new_var = self.resolver()
+        except (AttributeError, KeyError):
+            # The symbol no longer resolves at all (it was removed)
+            return True
         new_value = self._serialize_value(new_var)
         return self.last_value != new_value
 
@@ -883,7 +891,11 @@ class NonMementoFunctionHashRule(HashRule):
         We use the function reference to detect changes.
 
         """
-        new_fn = self.resolver()
+        try:
+            new_fn = self.resolver()
+        except (AttributeError, KeyError):
+            # The symbol no longer resolves at all (it was removed)
+            return True
         return self.src_fn != new_fn
 
     def __repr__(self):
